@@ -180,13 +180,16 @@ class SSHTCPClientListener(SSHClientListener, Generic[AnyStr]):
 
         assert self._conn is not None
 
+        # Let the factory refuse the connection before a channel exists
+        session = self._session_factory(orig_host, orig_port)
+
         chan = self._conn.create_tcp_channel(self._encoding, self._errors,
                                              self._window, self._max_pktsize)
 
         chan.set_inbound_peer_names(self._listen_host, self._listen_port,
                                     orig_host, orig_port)
 
-        return chan, self._session_factory(orig_host, orig_port)
+        return chan, session
 
     def get_addresses(self) -> List[Tuple]:
         """Return the socket addresses being listened on"""
@@ -226,12 +229,15 @@ class SSHUNIXClientListener(SSHClientListener, Generic[AnyStr]):
 
         assert self._conn is not None
 
+        # Let the factory refuse the connection before a channel exists
+        session = self._session_factory()
+
         chan = self._conn.create_unix_channel(self._encoding, self._errors,
                                               self._window, self._max_pktsize)
 
         chan.set_inbound_peer_names(self._listen_path)
 
-        return chan, self._session_factory()
+        return chan, session
 
 
 class SSHForwardListener(SSHListener):
